@@ -66,7 +66,9 @@ Definition okind_beq a b := match a, b with
   | _, _ => false end.
 Inductive levt := LCreated | LCompleted | LBeforeUpdate | LUpdated | LStep.
 Scheme Equality for levt.
-Inductive ukind := UIrq | UMsg | UBlock | UParallel | USequence.
+(* UFail: a package whose execution fails (invalid parameters, a script that throws) *)
+Inductive ukind := UIrq | UMsg | UBlock | UParallel | USequence | UFail.
+Definition is_fail (u : ukind) : bool := match u with UFail => true | _ => false end.
 (* act template: package kind, list length (parallel/sequence), block mode, `on`, nested acts *)
 Inductive aspec := ASpec (u : ukind) (n : nat) (sq : bool) (on : option levt) (acts : list aspec).
 Definition sp_u a := match a with ASpec u _ _ _ _ => u end.
@@ -629,7 +631,10 @@ Definition exec (f : nat) (cv : vars) (e : eng) (i : nat) : eng :=
                    let '(rdy, ea) := is_ready e1 i in
                    if rdy then emit f (set_state 6 ea i SRunning) i else ea
                  else e1 in
-      (* run *)
+      (* run: a package that fails when it is executed leaves the act running, nothing else has happened; the scheduler's
+         error path takes over (exec_or_fail) *)
+      if nkind_beq (kind e1' i) KAct && is (st e1' i) SReady && is_fail (sp_u (n_spec (tnode e1' i)))
+      then with_exn (set_state 7 e1' i SRunning) true else
       let e2 :=
         if is (st e1' i) SReady then
           let er := set_state 7 e1' i SRunning in
